@@ -2,7 +2,7 @@
 # Regenerates MANIFEST.json from the table below (kept in one place so it stays valid).
 import json, subprocess
 claimed = {
- "C19": ("exhaustive enumeration of argument vectors (length 0..3/4 over an 11-token alphabet of path situations and flags) spawned as the real command in prepared directories, against a model of the CLI contract; every Shift_JIS/UTF-8 character class in comments; CLI vs API on the program pool", "7/C19"),
+ "C19": ("exhaustive enumeration of argument vectors (length 0..3/4 over a 14-token alphabet of path situations and flags) spawned as the real command in prepared directories, against a model of the CLI contract; every Shift_JIS/UTF-8 character class in comments; CLI vs API on the program pool", "7/C19"),
  "C08": ("choice-tree DFS over code-size classes x every ordered subset of GLOBAL labels x placement x extras x naming patterns x FILE lengths; independent strict COFF reader + debug/pe", "7/C08-C09"),
  "C09": ("same exploration as C08; .text vs flat binary of the same source, symbol-table model (once each, class/section/value by sentinel-located offset, order, long names), .file record", "7/C08-C09"),
  "C10": ("explicit-state search over HISTORIES of assemble/reassemble operations on live worker processes: all length-1 and length-2 histories from a fresh process (BFS, replay on fresh workers), all ordered triples as de Bruijn windows; invariant per transition vs fresh-process reference + global-state digests", "7/C10"),
